@@ -113,6 +113,8 @@ var excC08P5 = map[string]excEntry{
 	"tl.decode":                             {"the reflective TL decoder recurses over the finite Go type structure of the generated lite-api types (no recursive TL types in lite_api.tl)", nil},
 	"tlb.decodeRecursiveBinTree":            {"bt_fork descends into two references: " + refDescent, []guardRef{gParseDepth}},
 	"tlb.readChunks":                        {"chunked/snake data follows one reference per step: " + refDescent, []guardRef{gParseDepth}},
+	"tlb.getStackListItems":                 {"vm_stk_cons: each step moves to the cell behind the next reference (a separate cycle under the VTA call graph, part of tlb.decode's cycle under CHA): " + refDescent, []guardRef{gParseDepth}},
+	"tlb.vmTupleInner":                      {"vm_tuple_tcons/vm_tupref: each step moves to the cell behind the next reference: " + refDescent, []guardRef{gParseDepth}},
 	"(*liteclient.AdnlMessage).UnmarshalTL": {"generated UnmarshalTL methods call tl.Unmarshal on their fields: recursion over the finite Go type structure", nil},
 }
 
